@@ -54,12 +54,37 @@ class Res:
         self.key = key
 
 
+def pyval(v):
+    """JSON form of an argument value -> a FRESH Python value ({"t": [...]} is a tuple, a list is a list)."""
+    if isinstance(v, dict) and list(v) == ["t"]:
+        return tuple(pyval(x) for x in v["t"])
+    if isinstance(v, list):
+        return [pyval(x) for x in v]
+    if isinstance(v, int) and not isinstance(v, bool) and abs(v) > 256:
+        return int(str(v))  # equal but not identical to any earlier occurrence
+    return v
+
+
+def norm(v):
+    """Python value -> canonical form in which Python-EQUAL values coincide (True == 1 == 1.0) and tuples differ from lists."""
+    if isinstance(v, bool):
+        return int(v)
+    if isinstance(v, float) and v == v and v not in (float("inf"), float("-inf")) and v == int(v):
+        return int(v)
+    if isinstance(v, tuple):
+        return {"t": [norm(x) for x in v]}
+    if isinstance(v, list):
+        return [norm(x) for x in v]
+    return v
+
+
 def canon_key(args, kwargs_pairs):
-    return [list(args), sorted([k, v] for k, v in kwargs_pairs)]
+    """Key of a call as the property sees it: equal positional and keyword arguments (Python equality, keyword order irrelevant)."""
+    return [[norm(a) for a in args], sorted(([k, norm(v)] for k, v in kwargs_pairs), key=lambda p: p[0])]
 
 
 def op_key(op):
-    return canon_key(op[1], op[2])
+    return canon_key([pyval(a) for a in op[1]], [(k, pyval(v)) for k, v in op[2]])
 
 
 class Patched:
@@ -98,8 +123,8 @@ class Wrapped:
             self.w = T.lru_cache_with_expiry(F, max_size=case["max_size"], **kw)
 
     def call(self, op):
-        args = tuple(op[1])
-        kwargs = dict((k, v) for k, v in op[2])
+        args = tuple(pyval(a) for a in op[1])
+        kwargs = dict((k, pyval(v)) for k, v in op[2])
         try:
             r = self.w(*args, **kwargs)
         except Exception as e:
@@ -605,6 +630,7 @@ def evaluate_conc(ctx, cases, degraded, info):
 # --------------------------------------------------------------------------- generators
 
 P = lambda *a: ["call", list(a), []]
+BIG = 2**61 - 1
 FAMILIES = {
     "pos": [P(0), P(1), P(2)],
     "kw": [["call", [], [["x", 0]]], ["call", [], [["x", 1]]], ["call", [], [["y", 0]]]],
@@ -613,6 +639,20 @@ FAMILIES = {
     "kworder": [["call", [], [["x", 1], ["y", 2]]], ["call", [], [["y", 2], ["x", 1]]], ["call", [], [["x", 2], ["y", 1]]]],
     "edge": [["call", [], []], ["call", [None], []], ["call", [None, None], []]],
     "unhashable": [["call", [[0]], []], ["call", [[1]], []], ["call", [], [["x", [0]]]]],
+    # unequal values with EQUAL CPython hashes (hash(-1) == hash(-2) == -2, hash(2**61-1) == hash(0) == 0, and tuples /
+    # frozensets of them): a cache keyed by a hash instead of the arguments serves one caller's result to the other
+    "hc_pos_a": [P(-1), P(-2), P(0)],
+    "hc_pos_b": [P(0), P(BIG), P(-2)],
+    "hc_pair": [P(-1, -2), P(-2, -1), P(-1, -1)],
+    "hc_kw_a": [["call", [], [["x", -1]]], ["call", [], [["x", -2]]], ["call", [], [["y", -1]]]],
+    "hc_kw_b": [["call", [], [["x", 0]]], ["call", [], [["x", BIG]]], ["call", [], [["x", -1], ["y", -2]]]],
+    "hc_mixed": [["call", [-1], [["x", -2]]], ["call", [-2], [["x", -1]]], ["call", [-1], [["x", -1]]]],
+    "hc_tuple": [P({"t": [-1]}), P({"t": [-2]}), P({"t": [0, BIG]})],
+    # -1.0 and -2.0 also hash to -2; -1.0 == -1, so those two share an entry legitimately
+    "hc_float": [P(-1.0), P(-2.0), P(-1)],
+    # equal but not identical / of different type: 1 == 1.0 == True must share an entry, 2 must not
+    "equal": [P(1), P(1.0), P(True)],
+    "equal_kw": [["call", [], [["x", 1]]], ["call", [], [["x", True]]], ["call", [2], [["x", 1.0]]]],
 }
 ADV = [["adv", 5], ["adv", VALID], ["adv", VALID + 1]]
 
@@ -688,6 +728,13 @@ def conc_scenarios(thorough):
     for m, pre, thr in ((1, [x], [x, y]), (2, [x, y], [x, z]), (2, [], [x, y]), (1, [x], [x, x]), (2, [x, y], [y, x])):
         # the LRU wrapper executes 10-15 lines per call: C(25,12) schedules per scenario, enumerated with a pre-emption bound
         out.append(({"mode": "conc", "cache": "lru", "valid": VALID, "max_size": m, "pre": pre, "threads": thr, "post": [x, y, z]}, False))
+    # argument pairs that are unequal but hash-equal in CPython, positional / keyword / mixed
+    a, b = P(-1), P(-2)
+    ka, kb = ["call", [], [["x", -1]]], ["call", [], [["x", -2]]]
+    ma, mb = ["call", [0], [["x", BIG]]], ["call", [BIG], [["x", 0]]]
+    for pre, thr in (([a], [b, a]), ([ka], [kb, ka]), ([ma], [mb, ma])):
+        out.append(({"mode": "conc", "cache": "single", "valid": VALID, "pre": pre, "threads": thr, "post": [thr[0], thr[1]]}, thorough))
+        out.append(({"mode": "conc", "cache": "lru", "valid": VALID, "max_size": 2, "pre": pre, "threads": thr, "post": [thr[0], thr[1]]}, False))
     out.append(({"mode": "conc", "cache": "lru", "valid": VALID, "max_size": 2, "pre": [x, ["adv", 6], y, ["adv", 5]], "threads": [x, z],
                  "post": [y, x], "costs": [[op_key(z), 6]]}, False))
     return out
@@ -729,7 +776,7 @@ def _batched(ctx, gen, fn, size=4000):
 def run(ctx):
     thorough = ctx.tier == "thorough"
     if thorough:
-        ctx.budget_s = min(ctx.budget_s, 460)  # leaves room for build, audit and leanchecker inside 10 minutes
+        ctx.budget_s = min(ctx.budget_s, 430)  # leaves room for build, audit and leanchecker inside 10 minutes
     ctx.note("rule", "seq: call/advance histories on both caches, non-trivial = at least two calls; frames: accesses to "
              "DataFrame.column_names/columncount, non-trivial = at least two reads; conc: one complete line-level schedule of N real "
              "threads per case, non-trivial = at least two threads actually interleaved; distinct by canonical JSON of the case")
